@@ -62,6 +62,23 @@ def run_unit(unit, rng, ctx):
     what = f'{kind}{"/rot" if rot else ""} T={T} N={N}'
     cart = (U - U[:1]) @ m
     want = models.msd_model(cart)
+    # history: other queries made first on the same object must not influence the results
+    pre = [str(x) for x in rng.permutation(['com', 'haven', 'positions', 'displacements', 'cumulative', 'drift', 'none', 'none'])[: int(rng.integers(0, 4))]]
+    for q in pre:
+        if q == 'com':
+            _ = traj.center_of_mass()
+        elif q == 'haven' and N > 1:
+            _ = traj.metrics().haven_ratio(dimensions=3)
+        elif q == 'positions':
+            _ = traj.positions
+        elif q == 'displacements':
+            _ = traj.displacements
+        elif q == 'cumulative':
+            _ = traj.cumulative_displacements
+        elif q == 'drift':
+            _ = traj.drift()
+    what += f' after {pre}' if pre else ''
+    ctx.count('cases_with_prior_queries', bool(pre))
     got = np.asarray(traj.mean_squared_displacement())
     scale = max(float(want.max()), 1e-12)
     ok_shape = got.shape == want.shape
@@ -79,6 +96,15 @@ def run_unit(unit, rng, ctx):
         g = float(traj.metrics().tracer_diffusivity(dimensions=dim))
         w = float(np.mean(final_sq)) * ANGSTROM**2 / (2 * dim * T * dt)
         ctx.check(abs(g - w) <= 1e-9 * max(abs(w), 1e-300), f'{what}: tracer_diffusivity(dimensions={dim})={g!r}, definition gives {w!r}', {'matrix': m, 'final_sq': final_sq, 'T': T, 'dt': dt})
+    # ... and asking again after everything else gives the same answers
+    _ = traj.center_of_mass()
+    dist2 = np.asarray(traj.distances_from_base_position())
+    ctx.check(dist2.shape == wd.shape and float(np.abs(dist2 - wd).max()) <= 1e-9 * max(1.0, wd.max()), f'{what}: distances_from_base_position() changed after center_of_mass() / other queries on the same object', {'matrix': m})
+    got2 = np.asarray(traj.mean_squared_displacement())
+    ctx.check(got2.shape == want.shape and float(np.abs(got2 - want).max()) <= 1e-9 * scale, f'{what}: mean_squared_displacement() changed when asked a second time', {'matrix': m})
+    g2 = float(traj.metrics().tracer_diffusivity(dimensions=3))
+    w2 = float(np.mean(final_sq)) * ANGSTROM**2 / (2 * 3 * T * dt)
+    ctx.check(abs(g2 - w2) <= 1e-9 * max(abs(w2), 1e-300), f'{what}: tracer_diffusivity changed when asked again through a new metrics object: {g2!r} vs {w2!r}', {'matrix': m})
     crossings = int(np.sum(np.floor(U[1:]) != np.floor(U[:-1])))
     nonortho = kind in ('hexagonal', 'rhombohedral', 'monoclinic', 'triclinic_mild', 'triclinic_strong')
     differ = N > 1 and float(np.ptp(final_sq)) > 1e-6
